@@ -187,7 +187,7 @@ var c01URLPieces = struct {
 	hosts: []string{"", "example.com", "example.com:8080", "example.com:", "127.0.0.1", "127.0.0.1:1", "[::1]", "[::1]:80", "[::1]:", "[fe80::1%25en0]", "[fe80::1%25en0]:8", "[::1", "::1]", "EXAMPLE.com",
 		"ex ample.com", "exa%6dple.com", "ex%C3%BCmple.com", "münchen.de", "user@example.com", "user:pw@example.com", "u%20s:p%40w@h", "a@b@c", "us er@h", "h:80:90", "h:8a", "h:-1", "host<>\"", "a%zz", "%25", "h%25", "[::1%2541]", "[v1.x]:1"},
 	paths: []string{"", "/", "/a", "/a/b", "/a/b/", "//a", "/a//b", "a", "a/b", "a:b", "a:b/c", "./a:b", "/a%2Fb", "/a%2fb", "/a%zz", "/a%", "/%41", "/a b", "/ü", "/%C3%BC", "/a;b,c", "/a:b@c", "/~-_.!$&'()*+,;=:@", "/a[b]", "/a{b}", "/a|b", "/a\"b", "/a<b>", "/a\\b", "/a^b`", "*", "/*", "/a\x7fb", "/a\tb", "/\xff"},
-	queries: []string{"", "", "?", "?a=1", "?a=1&b=2", "?a=b c", "?a=%zz", "?a=ü", "?a=1?b=2", "??", "?a[]=1", "?{x}", "?a=1#", "?a;b"},
+	queries: []string{"", "", "?", "?a=1", "?a=1&b=2", "?a=b c", "?a=%zz", "?a=ü", "?a=1?b=2", "??", "?a[]=1", "?{x}", "?a=1#", "?a;b", "? ", "?\u00a0", "?\u3000 \u2003\u0085", "?%20", "? a", "?\u2029\u205f\u1680", "?\xc2", "?\xe2\x80"},
 	frags:   []string{"", "", "", "#", "#f", "#f g", "#f%20g", "#f%zz", "#ü", "#a#b", "#!()*", "#a\x01b"},
 }
 
